@@ -125,7 +125,14 @@ def c03_r2(ctx):
     ctx.ob(u, got == [want], "returns latest_generation() == reader generation", detail=str(got))
     rf = prog.method("searching.Searcher", "refresh", inherited=False)
     ctx.saw(rf)
-    fa = guards.Facts(rf, textfn=lambda e: _getter_inline(prog, norm.deep_canon(e, rf.node)))
+    # refresh() may ask up_to_date() instead of repeating the comparison: the call then stands for what up_to_date() returns
+    # (decided just above)
+    same_def = got == [want]
+
+    def _rf_text(e):
+        t = _getter_inline(prog, norm.deep_canon(e, rf.node))
+        return t.replace("self.up_to_date()", want) if same_def else t
+    fa = guards.Facts(rf, textfn=_rf_text)
     g = fa.g
     ret_self = [n for n in g.nodes if n.kind == "return" and isinstance(n.ast.value, ast.Name) and n.ast.value.id == "self"]
     ok = bool(ret_self) and all(fa.holds(n, "T", want) for n in ret_self)
